@@ -640,6 +640,10 @@ class LiteralUnmarshaller(AbstractUnmarshaller[LiteralT], tp.Generic[LiteralT]):
     def __call__(self, val: tp.Any) -> LiteralT:
         if val in self.values:
             return val
+        # The same text must give the same member, whichever carrier holds it.
+        text = serdes.decode(val)
+        if text in self.values:
+            return text
         decoded = serdes.load(val)
         if decoded in self.values:
             return decoded  # type: ignore[return-value]
